@@ -321,6 +321,11 @@ func (iter *inIndexIterator) Next() (indexIterResult, error) {
 }
 
 func (iter *inIndexIterator) Close() error {
+	// the iterator of the current value is still open if the caller stops before all values are exhausted
+	if iter.hasIterator {
+		iter.hasIterator = false
+		return iter.indexIterator.Close()
+	}
 	return nil
 }
 
